@@ -5,7 +5,7 @@ use crate::cerrun::Run;
 use crate::rp;
 use crate::util;
 use ciborium::value::Value as Cbor;
-use passkey_client::{DefaultClientData, DefaultClientDataWithCustomHash, DefaultClientDataWithExtra, WebauthnError};
+use passkey_client::{DefaultClientData, DefaultClientDataWithCustomHash, DefaultClientDataWithExtra, Origin, UnverifiedAssetLink, WebauthnError};
 use passkey_types::webauthn::{
     AuthenticatedPublicKeyCredential, AuthenticationExtensionsClientInputs, AuthenticationExtensionsPrfInputs,
     AuthenticationExtensionsPrfValues, AuthenticatorSelectionCriteria, CreatedPublicKeyCredential,
@@ -29,6 +29,10 @@ pub fn origin_url(name: &str) -> &'static str {
         "o.r2" => "https://login.other-site.org",
         "o.local" => "http://localhost:8080",
         "o.ip" => "https://192.168.7.7",
+        // Android application origins: the name stands for the asset-link host (see `origin_of`)
+        "o.and.r1" => "https://example.com",
+        "o.and.r1w" => "https://www.example.com",
+        "o.and.evil" => "https://evilexample.com",
         _ => "https://unknown-origin.example.net",
     }
 }
@@ -203,15 +207,53 @@ fn read_client_data(bytes: &[u8], chal: &[u8], origin: &str, extra: Option<&Valu
     (ty, chal_ok, origin_ok, cross, order_ok)
 }
 
+/// A request origin: a web URL, or an Android application vouched for by an asset link on a host.
+enum POrigin {
+    Web(Url),
+    Android(UnverifiedAssetLink<'static>),
+}
+
+const APP_FINGERPRINT: &str = "B3:5B:68:D5:CE:84:50:55:7C:6A:55:FD:64:B5:1F:EA:C1:10:CB:36:D6:A3:52:1C:59:48:DB:3A:38:0A:34:A9";
+
+impl POrigin {
+    fn of(name: &str) -> POrigin {
+        let url = Url::parse(origin_url(name)).unwrap();
+        if name.starts_with("o.and.") {
+            let host = url.host_str().unwrap().to_string();
+            let asset = Url::parse(&format!("https://{host}/.well-known/assetlinks.json")).unwrap();
+            POrigin::Android(UnverifiedAssetLink::new("com.example.app", APP_FINGERPRINT, host, asset).expect("asset link"))
+        } else {
+            POrigin::Web(url)
+        }
+    }
+    fn as_origin(&self) -> Origin<'_> {
+        match self {
+            POrigin::Web(u) => Origin::Web(std::borrow::Cow::Borrowed(u)),
+            POrigin::Android(l) => Origin::Android(l.clone()),
+        }
+    }
+    /// what a relying party expects in clientDataJSON.origin: the serialised web origin, or
+    /// android:apk-key-hash:<base64url of the SHA-256 certificate fingerprint>
+    fn text(&self) -> String {
+        match self {
+            POrigin::Web(u) => u.origin().ascii_serialization(),
+            POrigin::Android(_) => {
+                let fp: Vec<u8> = APP_FINGERPRINT.split(':').map(|h| u8::from_str_radix(h, 16).unwrap()).collect();
+                format!("android:apk-key-hash:{}", rp::b64url(&fp))
+            }
+        }
+    }
+}
+
 struct Prepared {
-    origin: Url,
+    origin: POrigin,
     chal: Vec<u8>,
     mode: String,
     custom_hash: Vec<u8>,
 }
 
 fn prepare(run: &mut Run, req: &Value) -> Prepared {
-    let origin = Url::parse(origin_url(req["origin"].as_str().unwrap())).unwrap();
+    let origin = POrigin::of(req["origin"].as_str().unwrap());
     let chal = challenge(run, req["chal"].as_str().unwrap());
     // "hash" = a caller-supplied 32-byte hash; "hash<N>" = one of N bytes (the caller need not use SHA-256)
     let mode = req["cdmode"].as_str().unwrap();
@@ -280,9 +322,9 @@ fn register(run: &mut Run, req: &Value) -> Value {
     let sh = run.sh.clone();
     let extra = extra_value();
     let out = util::catch(|| match p.mode.as_str() {
-        "extra" => drive(client.register(&p.origin, options, DefaultClientDataWithExtra(extra.clone())), &sh),
-        m if m.starts_with("hash") => drive(client.register(&p.origin, options, DefaultClientDataWithCustomHash(p.custom_hash.clone())), &sh),
-        _ => drive(client.register(&p.origin, options, DefaultClientData), &sh),
+        "extra" => drive(client.register(p.origin.as_origin(), options, DefaultClientDataWithExtra(extra.clone())), &sh),
+        m if m.starts_with("hash") => drive(client.register(p.origin.as_origin(), options, DefaultClientDataWithCustomHash(p.custom_hash.clone())), &sh),
+        _ => drive(client.register(p.origin.as_origin(), options, DefaultClientData), &sh),
     });
     run.client = Some(client);
     match out {
@@ -325,7 +367,7 @@ fn judge_register(run: &mut Run, p: &Prepared, c: &CreatedPublicKeyCredential, e
     let mut d = Run::end_default();
     d["ok"] = json!(true);
     let bytes: &[u8] = &c.response.authenticator_data;
-    let origin = origin_text(&p.origin);
+    let origin = p.origin.text();
     let (ty, chal_ok, origin_ok, cross, order_ok) = read_client_data(&c.response.client_data_json, &p.chal, &origin, extra);
     // attestation object: {"fmt": "none", "attStmt": {}, "authData": bytes}
     let att: Option<Cbor> = ciborium::de::from_reader(&c.response.attestation_object[..]).ok();
@@ -398,9 +440,6 @@ fn judge_register(run: &mut Run, p: &Prepared, c: &CreatedPublicKeyCredential, e
 }
 
 /// the serialised origin as `url` normalises it (what a relying party compares with)
-fn origin_text(u: &Url) -> String {
-    u.origin().ascii_serialization()
-}
 
 fn authenticate(run: &mut Run, req: &Value) -> Value {
     let p = prepare(run, req);
@@ -425,9 +464,9 @@ fn authenticate(run: &mut Run, req: &Value) -> Value {
     let sh = run.sh.clone();
     let extra = extra_value();
     let out = util::catch(|| match p.mode.as_str() {
-        "extra" => drive(client.authenticate(&p.origin, options, DefaultClientDataWithExtra(extra.clone())), &sh),
-        m if m.starts_with("hash") => drive(client.authenticate(&p.origin, options, DefaultClientDataWithCustomHash(p.custom_hash.clone())), &sh),
-        _ => drive(client.authenticate(&p.origin, options, DefaultClientData), &sh),
+        "extra" => drive(client.authenticate(p.origin.as_origin(), options, DefaultClientDataWithExtra(extra.clone())), &sh),
+        m if m.starts_with("hash") => drive(client.authenticate(p.origin.as_origin(), options, DefaultClientDataWithCustomHash(p.custom_hash.clone())), &sh),
+        _ => drive(client.authenticate(p.origin.as_origin(), options, DefaultClientData), &sh),
     });
     run.client = Some(client);
     match out {
@@ -451,7 +490,7 @@ fn judge_authenticate(run: &mut Run, p: &Prepared, c: &AuthenticatedPublicKeyCre
     let mut d = Run::end_default();
     d["ok"] = json!(true);
     let bytes: &[u8] = &c.response.authenticator_data;
-    let origin = origin_text(&p.origin);
+    let origin = p.origin.text();
     let (ty, chal_ok, origin_ok, cross, order_ok) = read_client_data(&c.response.client_data_json, &p.chal, &origin, extra);
     let client = json!({"present": true, "cdType": ty, "chalOk": chal_ok, "originOk": origin_ok, "crossOrigin": cross,
                         "copiesEqual": c.response.attestation_object.is_none(), "attFmt": "none",
